@@ -83,7 +83,15 @@ int main(int argc, char** argv) {
           if (c2r && r2c) { auto* in = (std::complex<float>*)c2r->in; auto* ff = (std::complex<float>*)r2c->out;
             for (size_t i = 0; i < N / 2; i++) { std::complex<float> want = (*w.zv)[i] * ff[i]; if (in[i] != want) keep = false; }
             for (size_t i = N / 2; i < N; i++) if (in[i] != std::complex<float>(0, 0)) keep = false; }
-          FILE* fc = fopen((std::string(argv[2]) + ".calib").c_str(), "w"); fprintf(fc, "c2r_input_preserved %d\nbuffers_zero_after_planning %d\n", keep ? 1 : 0, zero_ok ? 1 : 0); fclose(fc); }
+          // an in-place c2r plan (output buffer inside the input buffer) overwrites its input by construction; what matters then is that the cells of the
+          // input buffer beyond the N real outputs (the top bin / its imaginary part) are left as they were
+          int inplace = 0, tail = 1;
+          if (c2r && r2c) { const char* i0 = (const char*)c2r->in; const char* o0 = (const char*)c2r->out; size_t ibytes = 8 * (N / 2 + 1), obytes = 4 * N;
+            if (o0 < i0 + ibytes && i0 < o0 + obytes) { inplace = 1; auto* fin = (const float*)c2r->in; auto* ff = (std::complex<float>*)r2c->out;
+              for (size_t k = N; k < 2 * (N / 2 + 1); k++) { size_t bin = k / 2; std::complex<float> want = bin < N / 2 ? (*w.zv)[bin] * ff[bin] : std::complex<float>(0, 0);
+                float wv = (k % 2) ? want.imag() : want.real(); if (o0 == i0 && fin[k] != wv) tail = 0; }
+              if (o0 != i0) tail = 0; } }
+          FILE* fc = fopen((std::string(argv[2]) + ".calib").c_str(), "w"); fprintf(fc, "c2r_input_preserved %d\nbuffers_zero_after_planning %d\nc2r_inplace %d\nc2r_inplace_tail_preserved %d\n", keep ? 1 : 0, zero_ok ? 1 : 0, inplace, tail); fclose(fc); }
         const float* cs = e_csr(w.f, cutoff ? 3e11f : 0.0f); snap_step("e_csr", {A_p(w.f), A_f(cutoff ? 3e11f : 0.0f)}); snap_expect("csr", cs, 4 * nb * N, true, 0);
         snap_step("e_csrpower", {A_p(w.f)}); snap_expect("csrpower", w.f->getCSRPower(), 4 * nb, true, 0);
         wk = e_wake(w.f); snap_step("e_wake", {A_p(w.f)}); snap_expect("wake2", wk, 4 * nb * n, true, 0);
